@@ -72,3 +72,11 @@ func init() {
 		fmt.Printf("GENCHECK: %d programs drawn, %d generator bugs\n", k, len(rs.infra))
 	}}
 }
+
+func init() {
+	checks["ENUMCOUNT"] = &checkT{run: func(rs *runState) {
+		for b := 1; b <= 5; b++ {
+			fmt.Printf("budget %d: %d programs\n", b, len(enumPrograms(b, knownExclusions())))
+		}
+	}}
+}
